@@ -28,6 +28,7 @@ type mqSub struct {
 // MockMQ implements mq.Client. It only records; the driver decides when anything is answered.
 type MockMQ struct {
 	mu        sync.Mutex
+	deliver   sync.RWMutex // held (read) while a callback runs during shutdown probing; Close takes it exclusively
 	w         *World
 	subs      map[string]*mqSub
 	reqs      []*Req
@@ -89,10 +90,29 @@ func (s *mqSub) Unsubscribe() error {
 }
 
 func (m *MockMQ) Close() {
+	// Close returns only when no callback is running, and none is made afterwards (the adapter contract)
+	m.deliver.Lock()
 	m.mu.Lock()
 	m.connected = false
 	m.mu.Unlock()
+	m.deliver.Unlock()
 	m.w.rec(Ev{Kind: "mqclose"})
+}
+
+// DeliverIfOpen delivers a message on a subscribed namespace unless the client has been closed; used while Stop is in
+// progress, when the harness does not know how far the shutdown has come.
+func (m *MockMQ) DeliverIfOpen(ns, subj string, payload []byte) bool {
+	m.deliver.RLock()
+	defer m.deliver.RUnlock()
+	m.mu.Lock()
+	s := m.subs[ns]
+	open := m.connected
+	m.mu.Unlock()
+	if !open || s == nil {
+		return false
+	}
+	s.cb(subj, payload, nil)
+	return true
 }
 
 func (m *MockMQ) IsClosed() bool {
